@@ -902,7 +902,7 @@ class QvmCpu:
         if not value.type.is_numeric:
             self.trap(TrapCode.TYPE_MISMATCH,
                       expected='numeric',
-                      got=a.type)
+                      got=value.type)
         result = -1 if value.value >= 0 else 0
         self.push(CellType.INTEGER, result)
 
@@ -912,7 +912,7 @@ class QvmCpu:
         if not value.type.is_numeric:
             self.trap(TrapCode.TYPE_MISMATCH,
                       expected='numeric',
-                      got=a.type)
+                      got=value.type)
         result = -1 if value.value > 0 else 0
         self.push(CellType.INTEGER, result)
 
@@ -1083,7 +1083,7 @@ class QvmCpu:
         if not value.type.is_numeric:
             self.trap(TrapCode.TYPE_MISMATCH,
                       expected='numeric',
-                      got=a.type)
+                      got=value.type)
         result = -1 if value.value <= 0 else 0
         self.push(CellType.INTEGER, result)
 
@@ -1093,7 +1093,7 @@ class QvmCpu:
         if not value.type.is_numeric:
             self.trap(TrapCode.TYPE_MISMATCH,
                       expected='numeric',
-                      got=a.type)
+                      got=value.type)
         result = -1 if value.value < 0 else 0
         self.push(CellType.INTEGER, result)
 
